@@ -60,26 +60,15 @@ theorem sum_idxRmw (c : Cfg) (s s' : State) (t : Nat) (inp : Inp) (l : Act) (sd 
     simp only [stepThread, hp, Option.some.injEq, Prod.mk.injEq] at h
     rw [← h.1]; simp only [blockEntry]; cases single <;> first | rfl | simp
   rw [hp] at pre
-  have ha := blockEntry_attrs c sd n single wait wake (s.idx sd) pre.wf
-  simp only at ha
-  obtain ⟨hh, hd, hn, hw, hlb, hex, hid⟩ := ha
-  have hpc : s'.pc t = blockEntry c sd n single wait wake (s.idx sd) := by rw [hs']; simp [State.setPc, upd]
-  refine .acquire sd n ?_ ?_ ?_ ?_ ?_ ?_ ?_ ?_ ?_ ?_ ⟨?_, ?_, ?_, ?_, ?_⟩
-  · rw [hs']; show (s.setIdx sd _).idx sd = _; exact idx_setIdx _ _ _
-  · rw [hs']; show (s.setIdx sd _).idx sd.other = _; exact idx_setIdx_other _ _ _
-  · rw [hs']; cases sd <;> rfl
-  · rw [hs']; cases sd <;> rfl
-  · rw [hs']; cases sd <;> rfl
-  · rw [hs']; cases sd <;> rfl
-  · apply others_upd c _ _ t (blockEntry c sd n single wait wake (s.idx sd)); rw [hs']; cases sd <;> rfl
+  obtain ⟨hh, hd, hn, hw, hlb, hex, hid⟩ := blockEntry_attrs c sd n single wait wake (s.idx sd) pre.wf
+  refine Summary.ofAcquire sd n _ hs' ?_ ?_ ?_ ?_ hw ?_ ?_ ?_
   · rw [hp]; simp [Pc.needs, sideIf]
-  · intro sd' i; rw [hpc, hh, hp]; simp [Pc.held]
-  · intro sd' i; rw [hpc, hd, hp]; simp [Pc.cbDone]
-  · intro sd'; rw [hpc, hn]; exact Nat.zero_le _
-  · rw [hpc]; exact hw
-  · intro sl; rw [hpc, hlb]; exact Nat.zero_le _
-  · intro sd' i; rw [hpc, hex]; simp
-  · rw [hpc, hp]; exact ⟨by simp, hid⟩
+  · intro sd' i; rw [hh, hp]; simp [Pc.held]
+  · intro sd' i; rw [hd, hp]; simp [Pc.cbDone]
+  · intro sd'; rw [hn]; exact Nat.zero_le _
+  · intro sl; rw [hlb]; exact Nat.zero_le _
+  · intro sd' i; rw [hex]; simp
+  · rw [hp]; exact ⟨by simp, hid⟩
 
 theorem sum_idxSt (c : Cfg) (s s' : State) (t : Nat) (inp : Inp) (l : Act) (sd : Side) (n : Nat) (single wait wake : Bool) (i0 : Nat)
     (hp : s.pc t = .idxSt sd n single wait wake i0)
@@ -90,25 +79,304 @@ theorem sum_idxSt (c : Cfg) (s s' : State) (t : Nat) (inp : Inp) (l : Act) (sd :
   have hs' : s' = (s.setIdx sd (s.idx sd + n)).setPc t (blockEntry c sd n single wait wake (s.idx sd)) := by
     simp only [stepThread, hp, Option.some.injEq, Prod.mk.injEq] at h
     rw [← h.1]; simp only [blockEntry]; cases single <;> first | rfl | simp
-  have ha := blockEntry_attrs c sd n single wait wake (s.idx sd) pre.wf
-  simp only at ha
-  obtain ⟨hh, hd, hn, hw, hlb, hex, hid⟩ := ha
-  have hpc : s'.pc t = blockEntry c sd n single wait wake (s.idx sd) := by rw [hs']; simp [State.setPc, upd]
-  refine .acquire sd n ?_ ?_ ?_ ?_ ?_ ?_ ?_ ?_ ?_ ?_ ⟨?_, ?_, ?_, ?_, ?_⟩
-  · rw [hs']; show (s.setIdx sd _).idx sd = _; exact idx_setIdx _ _ _
-  · rw [hs']; show (s.setIdx sd _).idx sd.other = _; exact idx_setIdx_other _ _ _
-  · rw [hs']; cases sd <;> rfl
-  · rw [hs']; cases sd <;> rfl
-  · rw [hs']; cases sd <;> rfl
-  · rw [hs']; cases sd <;> rfl
-  · apply others_upd c _ _ t (blockEntry c sd n single wait wake (s.idx sd)); rw [hs']; cases sd <;> rfl
+  obtain ⟨hh, hd, hn, hw, hlb, hex, hid⟩ := blockEntry_attrs c sd n single wait wake (s.idx sd) pre.wf
+  refine Summary.ofAcquire sd n _ hs' ?_ ?_ ?_ ?_ hw ?_ ?_ ?_
   · rw [hp]; simp [Pc.needs, sideIf]
-  · intro sd' i; rw [hpc, hh, hp]; simp [Pc.held]
-  · intro sd' i; rw [hpc, hd, hp]; simp [Pc.cbDone]
-  · intro sd'; rw [hpc, hn]; exact Nat.zero_le _
-  · rw [hpc]; exact hw
-  · intro sl; rw [hpc, hlb]; exact Nat.zero_le _
-  · intro sd' i; rw [hpc, hex]; simp
-  · rw [hpc, hp]; exact ⟨by simp, hid⟩
+  · intro sd' i; rw [hh, hp]; simp [Pc.held]
+  · intro sd' i; rw [hd, hp]; simp [Pc.cbDone]
+  · intro sd'; rw [hn]; exact Nat.zero_le _
+  · intro sl; rw [hlb]; exact Nat.zero_le _
+  · intro sd' i; rw [hex]; simp
+  · rw [hp]; exact ⟨by simp, hid⟩
+
+theorem sum_idxLd (c : Cfg) (s s' : State) (t : Nat) (inp : Inp) (l : Act) (sd : Side) (n : Nat) (single wait wake : Bool)
+    (hp : s.pc t = .idxLd sd n single wait wake)
+    (h : stepThread c s t inp = some (s', l)) (pre : Pre c s (s.pc t)) : Summary c s t s' := by
+  simp only [stepThread, hp, Option.some.injEq, Prod.mk.injEq] at h
+  obtain ⟨rfl, -⟩ := h
+  rw [hp] at pre
+  refine Summary.ofQuiet (.idxSt sd n single wait wake (s.idx sd)) s.pc ⟨rfl, rfl, rfl, rfl, rfl, rfl⟩ rfl
+    (fun u => AttrEq.rfl' c _) ?_ ?_ ?_ ?_ ?_ ?_ ?_
+  · intro sd' i; rw [hp]; rfl
+  · intro sd' i; rw [hp]; rfl
+  · intro sd'; rw [hp]; exact Nat.le_refl _
+  · exact pre.wf
+  · intro sl; exact Nat.zero_le _
+  · intro sd' i h1; simp only [Pc.expects] at h1; split at h1
+    · rename_i e; cases h1; rw [e]
+    · cases h1
+  · rw [hp]; simp
+
+theorem sum_cIdx (c : Cfg) (s s' : State) (t : Nat) (inp : Inp) (l : Act) (sd : Side) (n : Nat)
+    (hp : s.pc t = .cIdx sd n)
+    (h : stepThread c s t inp = some (s', l)) (pre : Pre c s (s.pc t)) : Summary c s t s' := by
+  have hs' : s' = (s.setIdx sd (s.idx sd + n)).setPc t
+      (.cVer { g := (splitSegs c sd (s.idx sd) n).1, j := 0, rest := (splitSegs c sd (s.idx sd) n).2 }) := by
+    simp only [stepThread, hp, Option.some.injEq, Prod.mk.injEq] at h
+    rw [← h.1]
+  rw [hp] at pre
+  have hw : 1 ≤ n ∧ n ≤ c.cap := pre.wf
+  obtain ⟨hg1, hn1, hsd, hidx, hg2, hl, hsum⟩ := splitSegs_spec c sd (s.idx sd) n hw.1 hw.2
+  refine Summary.ofAcquire sd n _ hs' ?_ ?_ ?_ ?_ ?_ ?_ ?_ ?_
+  · rw [hp]; simp [Pc.needs]
+  · intro sd' i; rw [hp]; simp only [Pc.held, CompCtx.held, false_or]; exact split_held c sd _ n hw.1 hw.2 sd' i
+  · intro sd' i; rw [hp]; simp [Pc.cbDone]
+  · intro sd'; rw [hp]; simp only [Pc.needs, CompCtx.needs, sideIf]; split <;> omega
+  · simp only [Pc.wf, CompCtx.wf]; exact ⟨hg1, hg2, hn1, by rw [hsd, hidx]; exact hl⟩
+  · intro sl; simp [Pc.lb, CompCtx.lb, segLb_self]
+  · intro sd' i; simp [Pc.expects]
+  · rw [hp]; simp
+
+theorem sum_sCbB (c : Cfg) (s s' : State) (t : Nat) (inp : Inp) (l : Act) (sd : Side) (i : Nat) (wake : Bool) (res : Nat)
+    (hp : s.pc t = .sCbB sd i wake res)
+    (h : stepThread c s t inp = some (s', l)) (pre : Pre c s (s.pc t)) : Summary c s t s' := by
+  simp only [stepThread, hp, Option.some.injEq, Prod.mk.injEq] at h
+  obtain ⟨rfl, -⟩ := h
+  rw [hp] at pre
+  refine Summary.ofQuiet (.sCbE sd i wake res) s.pc ⟨rfl, rfl, rfl, rfl, rfl, rfl⟩ rfl
+    (fun u => AttrEq.rfl' c _) ?_ ?_ ?_ ?_ ?_ ?_ ?_
+  · intro sd' i; rw [hp]; rfl
+  · intro sd' i; rw [hp]; rfl
+  · intro sd'; rw [hp]; exact Nat.le_refl _
+  · trivial
+  · exact pre.lb
+  · intro sd' i h1; cases h1
+  · rw [hp]; simp
+
+theorem one_seg (c : Cfg) (sd : Side) (i : Nat) :
+    let g : Seg := { sd := sd, idx := i, n := 1 }
+    g.wf c ∧ (∀ sd' i', segTk g 0 sd' i' ↔ (sd' = sd ∧ i' = i)) ∧ g.E c = expVer c sd i ∧ g.slot c 0 = slotOf c i ∧
+    g.slot c 1 = slotOf c i + 1 := by
+  have := slotOf_lt c i
+  refine ⟨by simp [Seg.wf]; omega, ?_, rfl, rfl, rfl⟩
+  intro sd' i'; simp only [segTk]; constructor
+  · rintro ⟨h1, h2, h3⟩; exact ⟨h1, by omega⟩
+  · rintro ⟨h1, h2⟩; exact ⟨h1, by omega, by omega⟩
+
+theorem sum_sCbE (c : Cfg) (s s' : State) (t : Nat) (inp : Inp) (l : Act) (sd : Side) (i : Nat) (wake : Bool) (res : Nat)
+    (hp : s.pc t = .sCbE sd i wake res)
+    (h : stepThread c s t inp = some (s', l)) (pre : Pre c s (s.pc t)) : Summary c s t s' := by
+  rw [hp] at pre
+  obtain ⟨hgw, hgt, hgE, hg0, hg1⟩ := one_seg c sd i
+  have key : ∀ (s1 : State), s' = s1.setPc t (.sSet sd i wake res) → s1.pc = s.pc →
+      s1.pushIdx = s.pushIdx → s1.popIdx = s.popIdx → s1.ver = s.ver →
+      (sd = .push → s1.poppedV = s.poppedV ∧ s1.pushedV i = some (s1.val (slotOf c i)) ∧
+          (∀ i', i' ≠ i → s1.pushedV i' = s.pushedV i') ∧ (∀ sl, sl ≠ slotOf c i → s1.val sl = s.val sl)) →
+      (sd = .pop → s1.pushedV = s.pushedV ∧ s1.val = s.val ∧ s1.poppedV i = some (s.val (slotOf c i)) ∧
+          (∀ i', i' ≠ i → s1.poppedV i' = s.poppedV i')) → Summary c s t s' := by
+    intro s1 hs' hpcs h1 h2 h3 hpush hpop
+    have hpc : s'.pc t = .sSet sd i wake res := by rw [hs']; simp [State.setPc, upd]
+    refine .callback { sd := sd, idx := i, n := 1 } hgw ⟨by rw [hs']; exact h1, by rw [hs']; exact h2, by rw [hs']; exact h3⟩
+      ?_ ?_ ?_ ?_ ?_ ?_ ?_ ?_ ?_ ⟨?_, ?_, ?_, ?_, ?_⟩
+    · apply others_upd c _ _ t (.sSet sd i wake res); rw [hs']; simp only [State.setPc, hpcs]
+    · intro sd' i' hh; rw [hp]; exact (hgt sd' i').1 hh
+    · intro k hk; have hk' : k < 1 := hk; have : k = 0 := by omega
+      subst this; rw [hp, hg0, hgE]; simp [Pc.lb, oneLb]
+    · intro sl; rw [hp, hg0, hg1]; simp only [Pc.inCb]; omega
+    · intro sd' i'; rw [hpc, hp]; rfl
+    · intro sd' i'; rw [hp]; simp [Pc.cbDone]
+    · intro sd' i'; rw [hpc, hgt]; rfl
+    · intro hsd; have := hpush hsd
+      rw [hs']; refine ⟨this.1, ?_, ?_, ?_⟩
+      · intro k hk; have hk' : k < 1 := hk; have : k = 0 := by omega
+        subst this; exact this.2.1
+      · intro i' hi'; apply this.2.2.1; intro e; apply hi'; rw [hgt]; exact ⟨hsd.symm ▸ rfl, e⟩
+      · intro sl hsl; apply this.2.2.2; intro e; apply hsl; rw [hg0, hg1]; omega
+    · intro hsd; have := hpop hsd
+      rw [hs']; refine ⟨this.1, this.2.1, ?_, ?_⟩
+      · intro k hk; have hk' : k < 1 := hk; have : k = 0 := by omega
+        subst this; exact this.2.2.1
+      · intro i' hi'; apply this.2.2.2; intro e; apply hi'; rw [hgt]; exact ⟨hsd.symm ▸ rfl, e⟩
+    · intro sd'; rw [hpc, hp]; simp [Pc.needs]
+    · rw [hpc]; trivial
+    · intro sl; rw [hpc]; exact pre.lb sl
+    · intro sd' i'; rw [hpc]; simp [Pc.expects]
+    · rw [hpc, hp]; simp
+  cases sd with
+  | push =>
+    simp only [stepThread, hp] at h
+    split at h
+    · rename_i v hv
+      simp only [Option.some.injEq, Prod.mk.injEq] at h
+      refine key _ h.1.symm rfl rfl rfl rfl ?_ (by intro e; cases e)
+      intro _; refine ⟨rfl, by simp [upd], ?_, ?_⟩
+      · intro i' hi'; simp [upd, hi']
+      · intro sl hsl; simp [upd, hsl]
+    · cases h
+  | pop =>
+    simp only [stepThread, hp, Option.some.injEq, Prod.mk.injEq] at h
+    refine key _ h.1.symm rfl rfl rfl rfl (by intro e; cases e) ?_
+    intro _; refine ⟨rfl, rfl, by simp [upd], ?_⟩
+    intro i' hi'; simp [upd, hi']
+
+theorem sum_sSet (c : Cfg) (s s' : State) (t : Nat) (inp : Inp) (l : Act) (sd : Side) (i : Nat) (wake : Bool) (res : Nat)
+    (hp : s.pc t = .sSet sd i wake res)
+    (h : stepThread c s t inp = some (s', l)) (pre : Pre c s (s.pc t)) : Summary c s t s' := by
+  rw [hp] at pre
+  have key : ∀ (s1 : State) (p' : Pc), s' = s1.setPc t p' → s1.pc = s.pc → s1.ver = upd s.ver (slotOf c i) (expVer c sd i + 1) →
+      s1.pushIdx = s.pushIdx → s1.popIdx = s.popIdx → s1.val = s.val → s1.pushedV = s.pushedV → s1.poppedV = s.poppedV →
+      (p' = .retd res ∨ p' = .sWake sd i res) → Summary c s t s' := by
+    intro s1 p' hs' hpcs hv h1 h2 h3 h4 h5 hp'
+    refine Summary.ofRelease sd i p' s.pc (by rw [hs']; exact hv) (by rw [hs']; exact h1) (by rw [hs']; exact h2)
+      (by rw [hs']; exact h3) (by rw [hs']; exact h4) (by rw [hs']; exact h5) (by rw [hs']; simp only [State.setPc, hpcs])
+      (fun u => AttrEq.rfl' c _) ?_ ?_ ?_ ?_ ?_ ?_ ?_ ?_ ?_ ?_
+    · rw [hp]; exact ⟨rfl, rfl⟩
+    · rw [hp]; simp [Pc.lb, oneLb]
+    · rw [hp]; exact ⟨rfl, rfl⟩
+    · intro sd' i'; rw [hp]; rcases hp' with rfl | rfl <;> simp [Pc.held]
+    · intro sd' i'; rw [hp]; rcases hp' with rfl | rfl <;> simp [Pc.cbDone]
+    · intro sd'; rw [hp]; rcases hp' with rfl | rfl <;> simp [Pc.needs]
+    · rcases hp' with rfl | rfl <;> trivial
+    · intro sl; rcases hp' with rfl | rfl <;> exact Nat.zero_le _
+    · intro sd' i' h1; rcases hp' with rfl | rfl <;> cases h1
+    · rw [hp]; rcases hp' with rfl | rfl <;> simp
+  simp only [stepThread, hp, versionBump] at h
+  cases wake with
+  | true =>
+    simp only [if_true, Option.some.injEq, Prod.mk.injEq] at h
+    refine key _ _ h.1.symm rfl rfl rfl rfl rfl rfl rfl ?_
+    split <;> simp
+  | false =>
+    simp only [Bool.false_eq_true, if_false, Option.some.injEq, Prod.mk.injEq] at h
+    exact key _ _ h.1.symm rfl rfl rfl rfl rfl rfl rfl (Or.inl rfl)
+
+theorem sum_sWake (c : Cfg) (s s' : State) (t : Nat) (inp : Inp) (l : Act) (sd : Side) (i : Nat) (res : Nat)
+    (hp : s.pc t = .sWake sd i res)
+    (h : stepThread c s t inp = some (s', l)) (pre : Pre c s (s.pc t)) : Summary c s t s' := by
+  simp only [stepThread, hp, Option.some.injEq, Prod.mk.injEq] at h
+  obtain ⟨rfl, -⟩ := h
+  refine Summary.ofQuiet (.retd res) (wakeAll c s.pc (slotOf c i)) ⟨rfl, rfl, rfl, rfl, rfl, rfl⟩ rfl
+    (fun u => wakeAll_attrEq c _ _ u) ?_ ?_ ?_ ?_ ?_ ?_ ?_
+  · intro sd' i'; rw [hp]; rfl
+  · intro sd' i'; rw [hp]; rfl
+  · intro sd'; rw [hp]; exact Nat.le_refl _
+  · trivial
+  · intro sl; exact Nat.zero_le _
+  · intro sd' i' h1; cases h1
+  · rw [hp]; simp
+
+/-- quiet step to a pc whose attributes are all empty -/
+theorem quiet_plain (c : Cfg) (s s' : State) (t : Nat) (p' : Pc) (hs' : s' = s.setPc t p') (hne : s.pc t ≠ .idle) (hne' : p' ≠ .idle)
+    (hh : ∀ sd i, p'.held sd i ↔ (s.pc t).held sd i) (hd : ∀ sd i, p'.cbDone sd i ↔ (s.pc t).cbDone sd i)
+    (hn : ∀ sd, p'.needs sd ≤ (s.pc t).needs sd) (hwf : p'.wf c) (hlb : ∀ sl, p'.lb c sl ≤ s.ver sl)
+    (hexp : ∀ sd i, p'.expects sd = some i → s.idx sd = i) : Summary c s t s' := by
+  subst hs'
+  exact Summary.ofQuiet p' s.pc ⟨rfl, rfl, rfl, rfl, rfl, rfl⟩ rfl (fun u => AttrEq.rfl' c _) hh hd hn hwf hlb hexp ⟨hne, hne'⟩
+
+theorem sum_tIdx (c : Cfg) (s s' : State) (t : Nat) (inp : Inp) (l : Act) (sd : Side) (conc wake : Bool)
+    (hp : s.pc t = .tIdx sd conc wake)
+    (h : stepThread c s t inp = some (s', l)) (pre : Pre c s (s.pc t)) : Summary c s t s' := by
+  simp only [stepThread, hp, Option.some.injEq, Prod.mk.injEq] at h
+  refine quiet_plain c s s' t _ h.1.symm (by rw [hp]; simp) (by simp) ?_ ?_ ?_ trivial ?_ ?_
+  · intro sd' i; rw [hp]; rfl
+  · intro sd' i; rw [hp]; rfl
+  · intro sd'; rw [hp]; exact Nat.le_refl _
+  · intro sl; exact Nat.zero_le _
+  · intro sd' i h1; simp only [Pc.expects] at h1; split at h1
+    · rename_i e; cases h1; rw [e.2]
+    · cases h1
+
+theorem sum_tVer (c : Cfg) (s s' : State) (t : Nat) (inp : Inp) (l : Act) (sd : Side) (conc wake : Bool) (i : Nat)
+    (hp : s.pc t = .tVer sd conc wake i)
+    (h : stepThread c s t inp = some (s', l)) (pre : Pre c s (s.pc t)) (hf : Faithful c s t) : Summary c s t s' := by
+  simp only [stepThread, hp, Option.some.injEq, Prod.mk.injEq] at h
+  rw [hp] at pre
+  have hfa := hf (slotOf c i) (expVer c sd i) (by rw [hp]; rfl)
+  rw [v16_word] at h
+  refine quiet_plain c s s' t _ h.1.symm (by rw [hp]; simp) (by split <;> simp) ?_ ?_ ?_ ?_ ?_ ?_
+  · intro sd' i'; rw [hp]; split <;> rfl
+  · intro sd' i'; rw [hp]; split <;> rfl
+  · intro sd'; rw [hp]; split <;> exact Nat.le_refl _
+  · split <;> trivial
+  · intro sl; split
+    · rename_i e; have := hfa.1 e
+      simp only [Pc.lb, oneLb]; split
+      · rename_i e2; rw [e2, this]; exact Nat.le_refl _
+      · exact Nat.zero_le _
+    · exact Nat.zero_le _
+  · intro sd' i' h1
+    have : (Pc.tVer sd conc wake i).expects sd' = some i' := by split at h1 <;> exact h1
+    exact pre.exp sd' i' this
+
+theorem sum_tReIdx (c : Cfg) (s s' : State) (t : Nat) (inp : Inp) (l : Act) (sd : Side) (conc wake : Bool) (i : Nat)
+    (hp : s.pc t = .tReIdx sd conc wake i)
+    (h : stepThread c s t inp = some (s', l)) (pre : Pre c s (s.pc t)) : Summary c s t s' := by
+  simp only [stepThread, hp, Option.some.injEq, Prod.mk.injEq] at h
+  refine quiet_plain c s s' t _ h.1.symm (by rw [hp]; simp) (by split <;> simp) ?_ ?_ ?_ ?_ ?_ ?_
+  · intro sd' i'; rw [hp]; split <;> rfl
+  · intro sd' i'; rw [hp]; split <;> rfl
+  · intro sd'; rw [hp]; split
+    · exact Nat.zero_le _
+    · exact Nat.le_refl _
+  · split <;> trivial
+  · intro sl; split <;> exact Nat.zero_le _
+  · intro sd' i' h1; split at h1
+    · cases h1
+    · simp only [Pc.expects] at h1; split at h1
+      · rename_i e; cases h1; rw [e.2]
+      · cases h1
+
+theorem sum_tCas (c : Cfg) (s s' : State) (t : Nat) (inp : Inp) (l : Act) (sd : Side) (conc wake : Bool) (i : Nat)
+    (hp : s.pc t = .tCas sd conc wake i)
+    (h : stepThread c s t inp = some (s', l)) (pre : Pre c s (s.pc t)) : Summary c s t s' := by
+  rw [hp] at pre
+  have acq : s.idx sd = i → s' = (s.setIdx sd (i + 1)).setPc t (.sCbB sd i wake 1) → Summary c s t s' := by
+    intro hi hs'; subst hi
+    refine Summary.ofAcquire sd 1 _ hs' ?_ ?_ ?_ ?_ trivial ?_ ?_ ?_
+    · rw [hp]; simp only [Pc.needs, sideIf, if_true, lvlConc]; split <;> omega
+    · intro sd' i'; rw [hp]; simp only [Pc.held, false_or]; constructor
+      · rintro ⟨rfl, rfl⟩; exact ⟨rfl, by omega, by omega⟩
+      · rintro ⟨rfl, h2, h3⟩; exact ⟨rfl, by omega⟩
+    · intro sd' i'; rw [hp]; rfl
+    · intro sd'; rw [hp]; exact Nat.zero_le _
+    · exact pre.lb
+    · intro sd' i' h1; cases h1
+    · rw [hp]; simp
+  simp only [stepThread, hp] at h
+  cases conc with
+  | true =>
+    simp only [if_true] at h
+    split at h
+    · rename_i hc
+      simp only [Option.some.injEq, Prod.mk.injEq] at h
+      exact acq hc.1 h.1.symm
+    · simp only [Option.some.injEq, Prod.mk.injEq] at h
+      refine quiet_plain c s s' t _ h.1.symm (by rw [hp]; simp) (by simp) ?_ ?_ ?_ trivial ?_ ?_
+      · intro sd' i'; rw [hp]; rfl
+      · intro sd' i'; rw [hp]; rfl
+      · intro sd'; rw [hp]; exact Nat.le_refl _
+      · intro sl; exact Nat.zero_le _
+      · intro sd' i' h1; simp [Pc.expects] at h1
+  | false =>
+    simp only [Bool.false_eq_true, if_false, Option.some.injEq, Prod.mk.injEq] at h
+    exact acq (pre.exp sd i (by simp [Pc.expects])) h.1.symm
+
+theorem sum_misc (c : Cfg) (s s' : State) (t : Nat) (inp : Inp) (l : Act)
+    (hp : (∃ w n tm, s.pc t = .xIdx w n tm) ∨ s.pc t = .zPop ∨ (∃ p, s.pc t = .zPush p))
+    (h : stepThread c s t inp = some (s', l)) (pre : Pre c s (s.pc t)) : Summary c s t s' := by
+  rcases hp with ⟨w, n, tm, hp⟩ | hp | ⟨p, hp⟩
+  · simp only [stepThread, hp, Option.some.injEq, Prod.mk.injEq] at h
+    rw [hp] at pre
+    refine quiet_plain c s s' t _ h.1.symm (by rw [hp]; simp) (by simp) ?_ ?_ ?_ ?_ ?_ ?_
+    · intro sd' i; rw [hp]; rfl
+    · intro sd' i; rw [hp]; rfl
+    · intro sd'; rw [hp]; exact Nat.le_refl _
+    · exact pre.wf
+    · intro sl; exact Nat.zero_le _
+    · intro sd' i h1; cases h1
+  · simp only [stepThread, hp, Option.some.injEq, Prod.mk.injEq] at h
+    refine quiet_plain c s s' t _ h.1.symm (by rw [hp]; simp) (by simp) ?_ ?_ ?_ trivial ?_ ?_
+    · intro sd' i; rw [hp]; rfl
+    · intro sd' i; rw [hp]; rfl
+    · intro sd'; rw [hp]; exact Nat.le_refl _
+    · intro sl; exact Nat.zero_le _
+    · intro sd' i h1; cases h1
+  · simp only [stepThread, hp, Option.some.injEq, Prod.mk.injEq] at h
+    refine quiet_plain c s s' t _ h.1.symm (by rw [hp]; simp) (by simp) ?_ ?_ ?_ trivial ?_ ?_
+    · intro sd' i; rw [hp]; rfl
+    · intro sd' i; rw [hp]; rfl
+    · intro sd'; rw [hp]; exact Nat.le_refl _
+    · intro sl; exact Nat.zero_le _
+    · intro sd' i h1; cases h1
 
 end Babylon.BQ
